@@ -1,5 +1,5 @@
-CONSTANTS Exh = 4
-  Bal = 6
+CONSTANTS Exh = 3
+  Bal = 5
   Del = 5
 INIT Init
 NEXT Next
